@@ -73,6 +73,8 @@ pub struct Net {
     pub by_addr: BTreeMap<String, usize>,
     /// which node an address belongs to (known even while nothing listens there)
     pub addr_owner: BTreeMap<String, u32>,
+    /// public address -> the address the node's listener is bound to (a node behind address translation)
+    pub aliases: BTreeMap<String, String>,
     /// (min,max) one-way latency in ns applied to node<->node traffic
     pub latency: (u64, u64),
     /// per ordered node pair override
@@ -98,6 +100,7 @@ impl Net {
             listeners: Vec::new(),
             by_addr: BTreeMap::new(),
             addr_owner: BTreeMap::new(),
+            aliases: BTreeMap::new(),
             latency: (0, 0),
             link_latency: BTreeMap::new(),
             partitions: Vec::new(),
@@ -131,6 +134,7 @@ impl Net {
     }
 
     pub fn lookup(&self, addr: &str) -> Option<usize> {
+        let addr = self.aliases.get(addr).map(|a| a.as_str()).unwrap_or(addr);
         let l = *self.by_addr.get(addr)?;
         if self.listeners[l].open {
             Some(l)
